@@ -148,13 +148,6 @@ def parseSrc (j : Json) : Except String (List (Ev Val)) := do
   let evs := if gen then cutAfterErr evs else evs
   return if srcIgnore then ignoreErr none evs else evs
 
-/-- `Ref.CleanRun` as a Boolean: no skippable error is passed on between operators -/
-def cleanRunB (ignore : Bool) : List Op → List (Ev Val) → Bool
-  | [], evs => evs.all fun ev => match ev with | .error e => terminal ignore e | .ok _ => true
-  | op :: ops, evs =>
-    (evs.all fun ev => match ev with | .error e => terminal ignore e | .ok _ => true) &&
-      cleanRunB ignore ops (Ref.opEvents ignore op op.s0 evs)
-
 def argsJson (a : List Val × List (String × Val)) : Json :=
   Json.mkObj [("a", Json.arr (a.1.map valJson).toArray),
               ("k", Json.mkObj (a.2.map fun (k, v) => (k, valJson v)))]
@@ -190,7 +183,7 @@ def handle (j : Json) : Except String Json := do
         -- record-after-record formulation (which also says what every sink has seen)
         let (rout, rerr) := observe (Ref.chainEvents ignore ops src)
         let rr := Ref.chain ignore ops src
-        [("ref_clean", toJson (cleanRunB ignore ops src)),
+        [("ref_clean", toJson (Ref.cleanRunB ignore ops src)),
          ("ref_out", Json.arr (rout.map valJson).toArray),
          ("ref_err", match rerr with | none => Json.null | some e => Driver.errJson e.kind),
          ("ref_logs", logsOf rr.logs),
